@@ -74,11 +74,14 @@ def close(a, b, tol=1e-9):
     return abs(a - b) <= tol * max(1.0, abs(a), abs(b))
 
 
-def step(series, c, mask, use_c, opts):
+def step(series, c, mask, use_c, opts, c_py=None):
     with contextlib.redirect_stdout(io.StringIO()):
         if use_c:
             return np.asarray(dtw_barycenter.dba_loop(series, c=c.copy(), mask=mask, max_it=1, thr=None, use_c=True, nb_prob_samples=0, **opts))
-        return np.asarray(dtw_barycenter.dba(series, c.copy(), mask=mask, use_c=False, **opts))
+        return np.asarray(dtw_barycenter.dba(series, c_py if c_py is not None else c.copy(), mask=mask, use_c=False, **opts))
+
+
+C_PY = [None]       # the initial average as handed to the Python engine when it is not the float array (int list / int array)
 
 
 def report(route, series, c, mask, opts, what, **extra):
@@ -103,6 +106,12 @@ for it in range(n):
     if not mask.any():
         mask[rng.randrange(ns)] = True
     c = mk(rng.randint(2, 5)) if rng.random() < 0.5 else np.array(lst[int(np.argmax(mask))], dtype=np.double).copy()
+    C_PY[0] = None
+    if rng.random() < 0.25:
+        # an integer-typed initial average (list of ints or int array): the result is still a mean of floats
+        c = np.round(c).astype(np.double)
+        ci = c.astype(np.int64)
+        C_PY[0] = ci.tolist() if rng.random() < 0.5 else ci
     opts = {}
     if rng.random() < 0.4:
         opts['window'] = rng.randint(1, 3)
@@ -115,7 +124,7 @@ for it in range(n):
     for use_c in (False, True):
         route = 'c' if use_c else 'py'
         try:
-            out = step(series, c, mask, use_c, opts)
+            out = step(series, c, mask, use_c, opts, c_py=C_PY[0])
         except Exception as e:      # noqa
             report(route, lst, c, mask, opts, 'raised %s: %s' % (type(e).__name__, str(e)[:100]))
             continue
@@ -162,7 +171,7 @@ for it in range(n):
             lst2 = [s if mask[i] else (np.asarray(s) + 7.5) for i, s in enumerate(lst)]
             series2 = np.array(lst2) if container == 'matrix' else lst2
             try:
-                out2 = step(series2, c, mask, use_c, opts)
+                out2 = step(series2, c, mask, use_c, opts, c_py=C_PY[0])
                 if not np.allclose(out, out2, rtol=1e-12, atol=0):
                     err = 'changing an unselected series changed the result'
             except Exception as e:      # noqa
